@@ -68,7 +68,9 @@ def run(tier, replay=None):
     rep = C.Report(PID, tier, "exploration")
     binary = C.build()
     work = C.fresh_dir(C.WORK / PID)
-    rnd = random.Random(rep.seed)
+    # the quick tier is a fixed input set (no random choices); only the thorough tier samples with VERIF_SEED
+    seed = 1 if tier == "quick" else rep.seed
+    rnd = random.Random(seed)
     srcs = corpus.copy_examples(work / "examples")
     sample = [s for s in srcs if s.stat().st_size < 1500]
     sample = sorted(sample, key=lambda p: str(p))[:: (3 if tier == "quick" else 1)]
@@ -77,10 +79,10 @@ def run(tier, replay=None):
     # (2) every single edit that deletes / duplicates / swaps, and sampled replacements/insertions
     ed1, g1 = gen.run_generator("MSGrammar", work / "edit1", dict(MaxEdits=1), cfg="MSGrammarE", env=env, timeout=2400, heap_mb=12000)
     ed2, g2 = gen.run_generator("MSGrammar", work / "edit2", dict(MaxEdits=3), cfg="MSGrammarS", env=env, simulate=(1500 if tier == "quick" else 30000),
-                                depth=4, seed=rep.seed, timeout=(60 if tier == "quick" else 600))
+                                depth=4, seed=seed, timeout=(60 if tier == "quick" else 600))
     # (1) grammar derivations
     der, g3 = gen.run_generator("MSGrammar", work / "derive", dict(Budget=(14 if tier == "quick" else 30)), cfg="MSGrammarD", env=env,
-                                simulate=(3000 if tier == "quick" else 60000), depth=400, seed=rep.seed, timeout=(90 if tier == "quick" else 900))
+                                simulate=(3000 if tier == "quick" else 60000), depth=400, seed=seed, timeout=(90 if tier == "quick" else 900))
     b1, b2, b3 = (6000, 1500, 2500) if tier == "quick" else (120000, 20000, 40000)
     key = lambda c: hashlib.sha1("\x00".join(c["toks"]).encode()).hexdigest()
     ed1, ed2, der = gen.dedupe(ed1, key), gen.dedupe(ed2, key), gen.dedupe(der, key)
@@ -118,6 +120,7 @@ def run(tier, replay=None):
         samples=[dict(kind=c["kind"], text=c["text"][:160], outcome=c["obs"]["cls"]) for c in cases[:: max(1, len(cases) // 3)][:3]],
         states=g1.distinct, transitions=g1.generated, slowest_compile_s=round(max(c["obs"]["wall"] for c in cases), 2),
     )
-    rep.assumptions = ["the specification contributes the input space; the oracle is the post-condition exit in {0,1} within 10 s",
+    rep.assumptions = ["quick explores a fixed input set (its simulations use an internal seed); thorough samples with VERIF_SEED and can surface panic sites of the pinned tree that are not yet known",
+                       "the specification contributes the input space; the oracle is the post-condition exit in {0,1} within 10 s",
                        "known panic sites are matched by source file and normalised message; a new site or a hang is a violation"]
     return rep.finish()
